@@ -710,7 +710,10 @@ func (m *Machine) drawPrice(t *rapid.T, g *GenOpts, a *Action) {
 	// perturbations
 	if pct(t, g.HostilePct, "perturb?") {
 		a.Hostile = true
-		switch uniform(t, 12, "perturb") {
+		switch uniform(t, 14, "perturb") {
+		case 12, 13:
+			// a price that is not a positive decimal integer
+			a.Prices[uniform(t, len(a.Prices), "badprice-i")] = []string{"", "abc", "-5", "1e5", "0x10", " 7", "0", "1.5", "99999999999999999999999999999999999999999999999999999999999999999999999999999"}[uniform(t, 9, "badprice")]
 		case 0:
 			a.Based = based + f.Interval
 		case 1:
